@@ -37,7 +37,7 @@ def run(ctx):
     for i in range(ngraphs):
         ip = rng.choice([RDF_TYPE, RDF_TYPE, EX + 'inst'])
         g = gen.gen_graph(rng, inst_prop=ip) if rng.random() < 0.7 else gen.gen_schema_graph(rng, inst_prop=ip)
-        cfg0 = gen.gen_cfg(rng, g, inst_prop=ip, presentation=False, allow_cap=False)
+        cfg0 = gen.gen_cfg(rng, g, inst_prop=ip, presentation=False, allow_cap=False, allow_or=True)
         cfg0['report'] = 'mixed'
         cfg0['disable_comments'] = False
         cfg0['disable_exact'] = False
